@@ -27,6 +27,24 @@ The destination is observed at two places (the property's observe_at):
                           sequence is misrouted and the returned dict has no primary assembly, the file is
                           *.<h>.*.primary.curated.*   (<ToLID>.hap1.1.primary.curated.fa)
      A name component is a '.'-separated part of the file name, compared in lower case.
+
+Primary-tag mode (README: "`Primary` for tagging the only curated haplotype in a multi-haplotype PretextView map"; --help:
+"Primary in a multi-haplotype Pretext map where only one of the haplotypes is being curated, is used to tag the first
+'Painted' chromosome in the curated haplotype").  The haplotype of the Pretext scaffold that carries the Primary tag is
+the curated haplotype: its assembly IS the primary assembly; the other haplotypes are not curated chromosomes of their
+own, they are written together, apart from the primary assembly.  The tag destinations do not depend on the mode.
+Documented destinations in this mode, per piece:
+        Contaminant / FalseDuplicate / Haplotig piece (of any haplotype, anywhere)
+                       -> *.contaminants.* / *.falseduplicates.* / the separate Haplotigs file *.haplotigs.*, none of them
+                          *.curated.*, *.primary.* or the merged file of the other haplotypes ("never to a curated assembly")
+        the curated haplotype (tagged scaffolds, and unplaced / absent scaffolds named <haplotype>_...)
+                       -> *.primary.curated.*    (may carry that haplotype's name, never another's)
+        every other haplotype
+                       -> a *.curated.* file that is not *.primary.* and not a tag file: *.all_haplotigs.curated.* (all
+                          other haplotypes merged) or a file carrying that haplotype's name
+   in the returned dict the curated haplotype's sequence is under ONE key ("Primary" or the haplotype's name, not both).
+   Sequence of the curated haplotype that is walked before the Primary tag has been seen is not judged (the tag is
+   documented to sit on the FIRST painted chromosome of that haplotype; the generator puts only tagged pieces before it).
 """
 
 import pathlib
@@ -93,13 +111,32 @@ def expected_routes(case):
     return routes, absent, hap_tags
 
 
-def key_matches(key, dest):
+def primary_of(case, hap_tags):
+    """
+    Primary-tag mode: (number of the first Pretext scaffold carrying a Primary tag, its haplotype in lower case), else None.
+    The haplotype is the scaffold's haplotype tag, else the haplotype its first piece is named after.
+    """
+    for k, psc in enumerate(case["map"]["scaffolds"], 1):
+        if any("Primary" in p[4] for p in psc):
+            h = pg.read_scaffold_tags(psc)["hap"] or hap_by_name(psc[0][0], hap_tags)
+            return (k, h.lower()) if h else None
+    return None
+
+
+def key_matches(key, dest, primary=None):
+    """primary: lower-case name of the curated haplotype of a Primary-tag mode map (its assembly is the primary assembly)"""
+    if primary is not None and (dest is None or dest == ("hap", primary)):
+        return key == "Primary" or (isinstance(key, str) and key.lower() == primary and key not in pg.SPECIAL_TAGS)
     if isinstance(dest, tuple):
-        return isinstance(key, str) and key.lower() == dest[1] and key not in pg.SPECIAL_TAGS
+        return isinstance(key, str) and key.lower() == dest[1] and key not in pg.SPECIAL_TAGS and key != "Primary"
     return key == dest
 
 
-def show(dest):
+def show(dest, primary=None):
+    if primary is not None and isinstance(dest, tuple):
+        if dest[1] == primary:
+            return f"the primary assembly (haplotype {primary!r} carries the Primary tag)"
+        return f"haplotype {dest[1]!r} (not the Primary-tagged haplotype {primary!r})"
     return f"haplotype {dest[1]!r}" if isinstance(dest, tuple) else ("primary" if dest is None else dest)
 
 
@@ -133,6 +170,31 @@ def file_matches(fname, dest, hap_tags, haplotypes_only):
     if haplotypes_only:
         return primary_curated and h in comps
     return "curated" in comps
+
+
+def file_matches_primary_mode(fname, dest, hap_tags, primary):
+    """Primary-tag mode: does the NAME of a written assembly file say `dest`?  (rules: see the module docstring)"""
+    comps = fname.lower().split(".")
+    tag_words = [c for c in comps if c in TAG_FILE_WORD.values() or c.endswith("_haplotigs")]
+    primary_curated = any(a == "primary" and b == "curated" for a, b in zip(comps, comps[1:], strict=False))
+    haps = sorted((h.lower() for h in hap_tags), key=len, reverse=True)
+    named = {next((h for h in haps if c.startswith(h)), None) for c in comps} - {None}
+    if dest in pg.SPECIAL_TAGS:
+        # the tag's own file: not curated, not primary, not the merged file of the other haplotypes
+        return tag_words == [TAG_FILE_WORD[dest]] and "primary" not in comps and "curated" not in comps
+    if dest is None or dest[1] == primary:
+        return primary_curated and not tag_words and named <= {primary}
+    if "primary" in comps or "curated" not in comps or named - {dest[1]}:
+        return False
+    return tag_words == ["all_haplotigs"] or (not tag_words and named == {dest[1]})
+
+
+def show_file_dest_primary_mode(dest, primary):
+    if dest in pg.SPECIAL_TAGS:
+        return f"the '{TAG_FILE_WORD[dest]}' file (*.{TAG_FILE_WORD[dest]}.*, not *.curated.*, not *.primary.*, not *.all_haplotigs.*)"
+    if dest is None or dest[1] == primary:
+        return f"the primary file *.primary.curated.* (haplotype {primary!r} carries the Primary tag: it is the curated haplotype)"
+    return f"the curated file of the haplotypes other than the Primary one (*.all_haplotigs.curated.* or *.{dest[1]}*.curated.*, never *.primary.*)"
 
 
 def show_file_dest(dest, haplotypes_only):
@@ -197,6 +259,11 @@ def routing_problems(case, out, files=None):
     idx = pg.OutIndex(out)
     fidx = FileIndex(files) if files is not None else None
     routes, absent, hap_tags = expected_routes(case)
+    prim = primary_of(case, hap_tags)
+    primary = prim[1] if prim else None
+    if prim:
+        # sequence of the curated haplotype walked before the Primary tag has been seen: not judged
+        routes = [(pc, k, "ambiguous" if k < prim[0] and (d is None or d == ("hap", primary)) else d) for pc, k, d in routes]
     # a map of haplotypes only: the statement sends no sequence to the primary assembly
     haplotypes_only = bool(hap_tags) and not any(d is None or d == "ambiguous" for _, _, d in routes) and not any(d is None for d in absent.values())
     problems = []
@@ -223,6 +290,11 @@ def routing_problems(case, out, files=None):
         if fidx is None:
             return
         names = fidx.where_of(toks)
+        if primary is not None:
+            wrong = {n: c for n, c in names.items() if not file_matches_primary_mode(n, dest, hap_tags, primary)}
+            if wrong:
+                file_problems.append((False, f"Primary-tag mode: {what} belongs in {show_file_dest_primary_mode(dest, primary)} but the command line wrote {wrong} bases to other files (files written: {sorted(files)})"))
+            return
         loose = {n: c for n, c in names.items() if not file_matches(n, dest, hap_tags, False)}
         strict = {n: c for n, c in names.items() if not file_matches(n, dest, hap_tags, haplotypes_only)}
         if loose:
@@ -238,7 +310,7 @@ def routing_problems(case, out, files=None):
             continue
         judged += 1
         keys = where_of(core, idx)
-        bad = {key: n for key, n in keys.items() if not key_matches(key, dest)}
+        bad = {key: n for key, n in keys.items() if not key_matches(key, dest, primary)}
         what = f"interior of piece {piece[0]}:{piece[1]}-{piece[2]} {piece[4]} of Scaffold_{k}"
         if bad:
             psc = case["map"]["scaffolds"][k - 1]
@@ -246,17 +318,17 @@ def routing_problems(case, out, files=None):
             src0 = psc[0][0]  # the input scaffold whose name the unplaced Pretext scaffold is known by
             unplaced_untagged = not info["painted"] and not info["hap"] and not pg.piece_special(piece)
             known = unplaced_untagged and class_of(src0, first_contig[src0], dest, bad, hap_tags)
-            problems.append((f"{what} belongs in {show(dest)} but {bad} bases were written elsewhere", known))
+            problems.append((f"{what} belongs in {show(dest, primary)} but {bad} bases were written elsewhere", known))
         else:
             judge_files(what, core, dest)
     for name, dest in absent.items():
         judged += 1
         keys = where_of(in_toks[name], idx)
-        bad = {key: n for key, n in keys.items() if not key_matches(key, dest)}
+        bad = {key: n for key, n in keys.items() if not key_matches(key, dest, primary)}
         what = f"input scaffold {name!r} is absent from the map and"
         if bad:
             known = class_of(name, first_contig[name], dest, bad, hap_tags)
-            problems.append((f"{what} belongs in {show(dest)} but {bad} bases were written elsewhere", known))
+            problems.append((f"{what} belongs in {show(dest, primary)} but {bad} bases were written elsewhere", known))
         else:
             judge_files(what, in_toks[name], dest)
     routed_right = not problems
@@ -272,6 +344,8 @@ def routing_problems(case, out, files=None):
     lows = [k.lower() for k in out if isinstance(k, str)]
     if len(lows) != len(set(lows)):
         problems.append((f"two output assemblies for one haplotype: {list(out)}", False))
+    if primary is not None and "Primary" in out and primary in lows and not any(d == "ambiguous" for _, _, d in routes):
+        problems.append((f"Primary-tag mode: the curated haplotype {primary!r} is split over two output assemblies: {list(out)}", False))
     # the strict shape *.<h>.*.primary.curated.* is asked for only if the run really is a map of haplotypes only: nothing
     # misrouted, and no primary assembly in the returned dict (a piece too short to be judged can still be misrouted - e.g.
     # a 20 bp unplaced piece of the known class - and create a primary assembly the statement does not expect)
@@ -589,7 +663,40 @@ def precede_cases(tier, rng):
                                 yield precede_case(haps, rot, special, place, target, bpt, second, rng, n)
 
 
-def precede_case(haps, rot, special, place, target, bpt, second, rng, n):
+def primary_cases(tier, rng):
+    """
+    ENUMERATED scope "Primary-tag mode": the maps of precede_cases with 2 or 3 haplotypes (2 painted chromosomes per
+    haplotype in alternating haplotype order, one unplaced scaffold per haplotype named <HAP>_SCAFFOLD_<n>, at texel size 10
+    an absent input scaffold shorter than a texel), where the FIRST painted Pretext scaffold of one haplotype - each
+    haplotype in turn, so the curated haplotype is the first, second or third one of the map - carries the Primary tag
+    (on all / the first / the last of its pieces), and ONE piece tagged Haplotig, Contaminant or FalseDuplicate in every
+    position of precede_cases (own scaffold unpainted / painted in front of each painted scaffold, tail / middle / cut-off
+    piece of each painted scaffold) PLUS one piece of each of the two other kinds in a seeded position, so every map holds
+    all three kinds; without and with Target mode.  Every case runs the command line.
+    quick: one haplotype order, Target mode / texel size / output name rotate; thorough: every rotation of the haplotype
+    order, Target off and on, texel sizes 1 and 10, 2 seeded repetitions.
+    """
+    quick = tier == "quick"
+    n = 0
+    for n_hap in (2, 3):
+        tag_sets = [t[:n_hap] for t in (HAP_TAG_SETS if n_hap < 3 else HAP_TAG_TRIPLES)]
+        n_painted = 2 * n_hap
+        places = [(kind, j) for kind in ("own", "ownp") for j in range(n_painted + 1)] + [(kind, j) for kind in ("tail", "mid", "cut") for j in range(n_painted)]
+        for rot in [0] if quick else range(n_hap):
+            for special in pg.SPECIAL_TAGS:
+                for place in places:
+                    for primary in range(n_hap):
+                        for target in ((False, True)[(n // n_hap) % 2],) if quick else (False, True):
+                            for _rep in range(1 if quick else 2):
+                                for bpt in ((1.0, 10.0)[n % 2],) if quick else (1.0, 10.0):
+                                    n += 1
+                                    haps = tag_sets[n % len(tag_sets)]
+                                    more = [(s, rng.choice(places)) for s in pg.SPECIAL_TAGS if s != special]
+                                    yield precede_case(haps, rot, special, place, target, bpt, None, rng, n, primary=primary, more=more)
+
+
+def precede_case(haps, rot, special, place, target, bpt, second, rng, n, primary=None, more=()):
+    """primary: None, or the index in `haps` of the haplotype whose first painted Pretext scaffold carries the Primary tag"""
     n_hap = len(haps)
     order = (list(haps[rot:] + haps[:rot]) * 2) if n_hap else [None] * 3
     inp = []
@@ -625,7 +732,7 @@ def precede_case(haps, rot, special, place, target, bpt, second, rng, n):
     if bpt > 7:
         new_scaffold(haps[-1] if haps else None, [7])  # shorter than a texel: absent from the map
     inserts = {}
-    for spec in [(special, place)] + ([second] if second else []):
+    for spec in [(special, place)] + ([second] if second else []) + list(more):
         tag, (kind, j) = spec
         if kind in ("own", "ownp"):
             inserts.setdefault(j, []).append(tagged_plan(spec))
@@ -654,7 +761,17 @@ def precede_case(haps, rot, special, place, target, bpt, second, rng, n):
         sc.pop("src", None)
     mp = pg.plan_to_map(seq, bpt, rng)
     mode = ("single", "one", "two", "three")[n_hap]
-    return {"input": inp, "map": mp, "prefix": ("SUPER_", "chr")[n % 2], "via": ("agp", "tpf", "objects")[n % 3], "mode": mode, "cli_out": CLI_OUT_NAMES[n % len(CLI_OUT_NAMES)]}
+    case = {"input": inp, "map": mp, "prefix": ("SUPER_", "chr")[n % 2], "via": ("agp", "tpf", "objects")[n % 3], "mode": mode, "cli_out": CLI_OUT_NAMES[n % len(CLI_OUT_NAMES)]}
+    if primary is not None:
+        # the Primary tag: on the first painted Pretext scaffold of the curated haplotype (all / first / last piece)
+        first = next(k for k, sc in enumerate(seq) if sc["painted"] and sc["hap"] == haps[primary])
+        psc = mp["scaffolds"][first]
+        where = rng.choice(("all", "first", "last"))
+        for i, piece in enumerate(psc):
+            if where == "all" or (where == "first" and i == 0) or (where == "last" and i == len(psc) - 1):
+                piece[4].append("Primary")
+        case["primary_mode"] = haps[primary]
+    return case
 
 
 # hand-made minimal case that is always run: HAP1_3 begins with "<haplotype>_" but is written to the primary assembly
@@ -685,7 +802,10 @@ def run(tier, seed, **opts):
         "assemblies are not curated); PLUS an enumerated scope: one Haplotig/Contaminant/FalseDuplicate piece in every "
         "position (own scaffold unpainted/painted in front of each painted scaffold, incl. first scaffold of the map; tail / "
         "middle / cut-off piece of each painted scaffold) of maps of 0-3 haplotypes (every rotation of the haplotype order), "
-        "without and with Target mode; every enumerated case and every n-th seeded case is also run through the "
+        "without and with Target mode; the same maps of 2-3 haplotypes in Primary-tag mode (Primary tag on the first painted scaffold "
+        "of each haplotype in turn, a Haplotig, a Contaminant and a FalseDuplicate piece in every map, one of them in every "
+        "position): tag files not curated, curated haplotype in *.primary.curated.*, other haplotypes in "
+        "*.all_haplotigs.curated.* / their own curated file; every enumerated case and every n-th seeded case is also run through the "
         "pretext-to-asm command line (TPF or AGP output) and every judged base is looked up in the written files, whose "
         "names must be the documented destination (*.contaminants.*, *.falseduplicates.*, *haplotigs.*, "
         "*.primary.curated.*, *.<hap>.*.primary.curated.*); non-trivial = distinct completed case with >= 1 judged "
@@ -693,13 +813,15 @@ def run(tier, seed, **opts):
     )
     n_cases = 4000 if tier == "quick" else 120000
     cli_every = 25 if tier == "quick" else 40  # every n-th seeded case is also run through the command line
-    stats = {"rejected_tagging": 0, "judged": 0, "single": 0, "one": 0, "two": 0, "three": 0, "enumerated": 0, "enumerated_rejected": 0, "cli": 0}
+    stats = {"rejected_tagging": 0, "judged": 0, "single": 0, "one": 0, "two": 0, "three": 0, "enumerated": 0, "enumerated_rejected": 0, "cli": 0, "primary_mode": 0}
     known_failures = {}
 
     def stream():
         for c in FIXED_CASES:
             yield "fixed", -1, c
         for c in precede_cases(tier, random.Random(f"c09-precede-{seed}")):
+            yield "enumerated", -1, c
+        for c in primary_cases(tier, random.Random(f"c09-primary-{seed}")):
             yield "enumerated", -1, c
         for i in range(n_cases):
             c = make_case(rng, i)
@@ -713,6 +835,7 @@ def run(tier, seed, **opts):
         judged = check(case, col, known_failures)
         stats[case["mode"]] += 1
         stats["cli"] += bool(case.get("cli_out"))
+        stats["primary_mode"] += bool(case.get("primary_mode"))
         if family == "enumerated":
             stats["enumerated"] += 1
             stats["enumerated_rejected"] += judged is None
@@ -729,7 +852,7 @@ def run(tier, seed, **opts):
         bounds=(
             "3-7 input scaffolds x <= 2 contigs, contig lengths {1,2,7,40,150,400}, texel sizes {1,2.5,10,33.3}, <= 2 cuts per "
             f"scaffold, <= 4 painted scaffolds; {len(FIXED_CASES)} fixed hand-made case + {stats['enumerated']} enumerated tagged-piece-position cases "
-            f"(all enumerated; {stats['enumerated_rejected']} of them rejected) + {n_cases} seeded cases; cases also run through the command line: {stats['cli']}; "
+            f"(all enumerated; {stats['enumerated_rejected']} of them rejected; {stats['primary_mode']} in Primary-tag mode) + {n_cases} seeded cases; cases also run through the command line: {stats['cli']}; "
             f"pieces/absent scaffolds judged: {stats['judged']}; maps "
             f"rejected with TaggingError/ChrNamerError (allowed, not judged): {stats['rejected_tagging']}; "
             f"modes: single={stats['single']} one-haplotype={stats['one']} two-haplotype={stats['two']} three-haplotype={stats['three']}; cases failing only in a "
